@@ -8,15 +8,21 @@ EXTENDS Naturals, FiniteSets, TLC, Json
 Points == {"beforeHead", "afterHead", "midBody", "afterDone"}
 VARIABLES par, fetches
 vars == <<par, fetches>>
-Init == /\ par \in [f1 : Points, f2 : Points, f3 : Points \cup {"absent"}, outcome : {"ok", "abort", "unshareable"}, w1 : 1..2, w2 : 1..2, w3 : 1..2, workers : 1..2]
+\* fresh: how long the (shareable) response may be reused without asking again: "fresh" (max-age=3600), or one of the
+\* cacheable-but-always-revalidate forms: "nocache" (no-cache + ETag), "mustreval0" (max-age=0, must-revalidate + Last-Modified),
+\* "expired" (Expires = Date + Last-Modified).  A follower that arrived during the fetch shares it in every case.
+Init == /\ par \in [f1 : Points, f2 : Points, f3 : Points \cup {"absent"}, outcome : {"ok", "abort", "unshareable"}, w1 : 1..2, w2 : 1..2, w3 : 1..2, workers : 1..2,
+                    fresh : {"fresh", "nocache", "mustreval0", "expired"}]
         /\ (par.workers = 1 => par.w1 = 1 /\ par.w2 = 1 /\ par.w3 = 1)
+        /\ (par.outcome # "ok" => par.fresh = "fresh")
         /\ fetches = 0 - 1
 During(p) == p \in {"beforeHead", "afterHead", "midBody"}
 Followers == {par.f1, par.f2} \cup (IF par.f3 = "absent" THEN {} ELSE {par.f3})
 \* predicted number of additional origin requests (not counting the writer's)
-Extra == IF par.outcome = "ok" THEN 0 ELSE 99     \* 99: not predicted
+\* (followers arriving after the head of a must-revalidate style reply are ordinary requests for a stale response: not predicted)
+Extra == IF par.outcome = "ok" /\ (par.fresh = "fresh" \/ Followers \subseteq {"beforeHead"}) THEN 0 ELSE 99     \* 99: not predicted
 Next == fetches < 0 /\ fetches' = Extra /\ UNCHANGED par
 Spec == Init /\ [][Next]_vars
-OkMeansOne == (fetches >= 0 /\ par.outcome = "ok") => fetches = 0
+OkMeansOne == (fetches >= 0 /\ par.outcome = "ok" /\ par.fresh = "fresh") => fetches = 0
 Dump == fetches >= 0 => PrintT(<<"SCEN", ToJson([par |-> par, extra |-> fetches])>>)
 ====
